@@ -35,6 +35,9 @@ CHECKS["C19"] = dict(level="other", design="4/C19",
 CHECKS["C11"] = dict(level="other", design="4/C11",
    text="Solver-decided on a stub file system: the file content is a symbolic str (every character a solver variable inside its UTF-8 length class; shapes enumerate length and newline positions), so empty lines, missing final newline, multi-byte characters and carriage returns are all inside; len, f[i] for symbolic i (negative, out of range), slices, index lists, caller-supplied offset indexes (subset/permutation/repetition; list and index file), iteration == indexing, and interleavings of two iterators with random access on one object are compared with the split-by-newline reference for the buffered, memory-mapped, mutable(unmodified) and record variants.",
    note="Trusted: CrossHair+z3; SymFS stub of open/mmap/readline/seek/tell (validated differentially against the real API on 264 contents every run; every counterexample replayed on real files). Bounds: content length <=2 (+7 shapes of 3) quick; <=3 full + length 4 over {newline,1-byte,3-byte} thorough.")
+CHECKS["C12"] = dict(level="other", design="4/C12",
+   text="Inductive step decided by the solver on the stub file system: every reachable mix of file-backed lines (offsets) and in-memory strings up to the bound is built through the API, then one of 17 operations (item assignment/deletion, slice deletion, insert, append, extend, pop, remove, reverse, +=, reads, save with three line endings to a path or an open handle) with symbolic strings/indices is compared with a Python list, the dirty flag rules, the exact saved text, re-reading of the saved file with both reader variants and the untouched source; text/mmap x plain/record variants.",
+   note="Trusted: CrossHair+z3 (with its symbolic-str equality replaced by an element-wise one, see DESIGN); SymFS stub (validated differentially every run; counterexamples replayed on real files); identity record class for the record variants. Bounds: <=2 original lines, state length <=3 quick; <=3 lines, length <=4 thorough; inserted strings of length 1, assigned strings <=2.")
 NOT_YET = {}
 def main():
     props = [json.loads(l)["id"] for l in open(os.path.join(ROOT, "properties.jsonl"))]
